@@ -98,6 +98,87 @@ func objFill(name string, seed uint64) meta.Object {
 	return obj
 }
 
+// objHandlers: RandgeneratorContext variants a user of the public API may install (NewRandGeneratorWithContext).
+//   big1     SizeHandler: the first non-zero size becomes size+1024 (a #-field used as a size may exceed LimitValue's 1023)
+//   mul37    SizeHandler: size*37
+//   maskall  FieldMaskHandler: every used bit set        masknone  FieldMaskHandler: 0
+func objHandlers(mode string) (basictl.RandgeneratorContext, bool) {
+	switch mode {
+	case "big1":
+		done := false
+		return basictl.RandgeneratorContext{SizeHandler: func(v uint32) uint32 {
+			if v != 0 && !done {
+				done = true
+				return v + 1024
+			}
+			return v
+		}}, true
+	case "mul37":
+		return basictl.RandgeneratorContext{SizeHandler: func(v uint32) uint32 { return v * 37 }}, true
+	case "maskall":
+		return basictl.RandgeneratorContext{FieldMaskHandler: func(v uint32, bits uint32) uint32 { return bits }}, true
+	case "masknone":
+		return basictl.RandgeneratorContext{FieldMaskHandler: func(v uint32, bits uint32) uint32 { return 0 }}, true
+	}
+	return basictl.RandgeneratorContext{}, false
+}
+
+func objFillH(name string, seed uint64, mode string) meta.Object {
+	obj := factory.CreateObjectFromName(name)
+	hctx, ok := objHandlers(mode)
+	if obj == nil || !ok {
+		return nil
+	}
+	defer objWatch(20*time.Second, "FillRandom "+name)()
+	obj.FillRandom(basictl.NewRandGeneratorWithContext(&objRand{srand: srand{s: seed}, max: objDrawBudget}, hctx))
+	return obj
+}
+
+// objAfterFill: every writer on a filled object (shared by orand / orandh)
+func objAfterFill(obj meta.Object, name string, again func() meta.Object) string {
+	w, err := obj.WriteTL1BoxedGeneral(nil)
+	if err != nil {
+		return "writeerr"
+	}
+	js := "ok"
+	if j, err := objWriteJSON(obj); err != nil {
+		js = "err"
+	} else {
+		o2 := factory.CreateObjectFromName(name)
+		if err := objReadJSON(o2, j); err != nil {
+			js = "rt-reject"
+		} else if w2, err := o2.WriteTL1BoxedGeneral(nil); err != nil || !bytes.Equal(w, w2) {
+			js = "rt-diff"
+		}
+	}
+	t2, ts := objWriteTL2(obj, name)
+	if ts == "ok" {
+		o2 := factory.CreateObjectFromName(name)
+		if rest, err, _ := objReadTL2(o2, t2); err != nil || len(rest) != 0 {
+			ts = "rt-reject"
+		} else if w2, err := o2.WriteTL1BoxedGeneral(nil); err != nil || !bytes.Equal(w, w2) {
+			ts = "rt-diff"
+		}
+	}
+	rep := "same"
+	if w2, err := again().WriteTL1BoxedGeneral(nil); err != nil || !bytes.Equal(w, w2) {
+		rep = "diff"
+	}
+	return "ok " + hx(w) + " j=" + js + " t2=" + ts + " rep=" + rep
+}
+
+func init() {
+	// orandh <name> <seed> <mode>: FillRandom under a user RandgeneratorContext (see objHandlers), then every writer; result as orand
+	ops["orandh"] = func(f []string) string {
+		seed, _ := strconv.ParseUint(f[2], 10, 64)
+		obj := objFillH(f[1], seed, f[3])
+		if obj == nil {
+			return "driver-error no object / mode " + f[1] + " " + f[3]
+		}
+		return objAfterFill(obj, f[1], func() meta.Object { return objFillH(f[1], seed, f[3]) })
+	}
+}
+
 func init() {
 	// ofill <name> <seed>: like rand1 of ops_tl1.go (FillRandom, written TL1 boxed) but with the draw budget and the
 	// watchdog, so that the types whose FillRandom does not terminate (F7) cost a panic line, not minutes
@@ -166,6 +247,19 @@ func init() {
 		}
 		if _, err := obj.ReadTL1Boxed(unhex(f[2])); err != nil {
 			return "reject"
+		}
+		w, st := objWriteTL2(obj, f[1])
+		if st != "ok" {
+			return st
+		}
+		return "ok " + hx(w)
+	}
+	// ofill2 <name> <seed>: FillRandom (scripted source, draw budget), written as TL2 -> ok <hex> | na | panic
+	ops["ofill2"] = func(f []string) string {
+		seed, _ := strconv.ParseUint(f[2], 10, 64)
+		obj := objFill(f[1], seed)
+		if obj == nil {
+			return "driver-error no object " + f[1]
 		}
 		w, st := objWriteTL2(obj, f[1])
 		if st != "ok" {
